@@ -107,6 +107,9 @@ func planFaults(r *core.Rand, w *Workload) {
 		if ft.Kind == "bad-foreign" {
 			ft.Param = r.Intn(3)
 		}
+		if ft.Kind == "retrieve-error" || ft.Kind == "eio-open" {
+			ft.Param = r.Intn(4) // which error identity the failing call returns
+		}
 		switch ft.Kind {
 		case "eio-read", "truncate", "flip":
 			if len(f.Text) > 0 {
